@@ -92,8 +92,8 @@ PROPS["C15"] = dict(
 )
 
 PROPS["C03"] = dict(
-    modules=["Sth.Props.C01", "Sth.Props.C08", "Sth.Props.C03"],
-    theorems=list(CORE_RL) + ['Sth.C03_flush_crash_recovers', 'Sth.C03_flush_crash_against_map', 'Sth.C03_removed_flushed_stays_absent', 'Sth.C03_flushed_unchanged_survives', 'Sth.C03_lastDurable_spec', 'Sth.C03_image_zero', 'Sth.C03_image_full', 'Sth.C03_recovered_store_keeps_working_partial'],
+    modules=["Sth.Props.C01", "Sth.Props.C08", "Sth.Props.C03", "Sth.Props.C03Close"],
+    theorems=list(CORE_RL) + ['Sth.C03_flush_crash_recovers', 'Sth.C03_flush_crash_against_map', 'Sth.C03_removed_flushed_stays_absent', 'Sth.C03_flushed_unchanged_survives', 'Sth.C03_lastDurable_spec', 'Sth.C03_image_zero', 'Sth.C03_image_full', 'Sth.C03_recovered_store_keeps_working_partial', 'Sth.C03_close_crash_recovers', 'Sth.C03_close_crash_against_map', 'Sth.C03_close_recovered_store_keeps_working_partial', 'Sth.C03_close_images_recover', 'Sth.C03_snapshot_needs_complete_index'],
     runs=[dict(engine="crash", quick=48, thorough=2000, nontrivial=["torn", "at:index", "at:primary", "at:freelist", "at:store", "flush-image-interior"])],
     shrink_budget=0,   # the workload is the context of the crash oracle (baseline, acknowledged since): it is kept whole
     crash_lines=True,
@@ -202,8 +202,8 @@ PROPS["C11"] = dict(
 )
 
 PROPS["C07"] = dict(
-    modules=["Sth.Props.C01", "Sth.Props.C08", "Sth.Props.C07"],
-    theorems=list(CORE_RL) + ['Sth.C07_fsck_clean', 'Sth.C07_disk_consistent', 'Sth.C07_recovered_table', 'Sth.C07_recovered_table_reopen', 'Sth.C07_fsck_clean_reopen', 'Sth.C07_recovered_table_after_close', 'Sth.C07_bucket_clauses', 'Sth.C07_bucket_points_at_own_record_list', 'Sth.C07_entries_sorted_prefix_free_distinct', 'Sth.C07_entry_names_live_matching_primary_record', 'Sth.C07_freelist_disjoint_from_live', 'Sth.C07_recorded_never_current', 'Sth.C07_example_clean_everywhere', 'Sth.C07_negative_deleted_record', 'Sth.C07_negative_wrong_bucket', 'Sth.C07_negative_stale_record_list', 'Sth.C07_negative_torn_record_list', 'Sth.C07_negative_live_on_freelist', 'Sth.C07_negative_recovered'],
+    modules=["Sth.Props.C01", "Sth.Props.C08", "Sth.Props.C07", "Sth.Props.C07G"],
+    theorems=list(CORE_RL) + ['Sth.C07_fsck_clean', 'Sth.C07_disk_consistent', 'Sth.C07_recovered_table', 'Sth.C07_recovered_table_reopen', 'Sth.C07_fsck_clean_reopen', 'Sth.C07_recovered_table_after_close', 'Sth.C07_bucket_clauses', 'Sth.C07_bucket_points_at_own_record_list', 'Sth.C07_entries_sorted_prefix_free_distinct', 'Sth.C07_entry_names_live_matching_primary_record', 'Sth.C07_freelist_disjoint_from_live', 'Sth.C07_recorded_never_current', 'Sth.C07_example_clean_everywhere', 'Sth.C07_negative_deleted_record', 'Sth.C07_negative_wrong_bucket', 'Sth.C07_negative_stale_record_list', 'Sth.C07_negative_torn_record_list', 'Sth.C07_negative_live_on_freelist', 'Sth.C07_negative_recovered', 'Sth.C07_fsck_clean_igc', 'Sth.C07_disk_consistent_igc', 'Sth.C07_bucket_clauses_igc', 'Sth.C07_recovered_table_igc', 'Sth.C07_reopen_igc', 'Sth.C07_after_igc'],
     runs=[dict(engine="seq", quick=250, thorough=10000, extra=["-profile", "c07"], nontrivial=["fsck-2-buckets"])],
     rule="C04-style traces (flushes, reopen, both GCs, small files); after every flush, GC cycle and reopen the FULL bytes of every file "
          "and the live bucket table of the real store are handed to the Lean fsck (Sth/Model/Fsck.lean), which checks every clause of the "
